@@ -280,7 +280,20 @@ def cmp(op, a, b):
         return TRUE
     if op in ("!=", "<", ">") and a == b:
         return FALSE
+    sa, sb = _inf_sign(a), _inf_sign(b)
+    if (sa or sb) and not (sa and sb) and op in _CMP:
+        # an infinite bound against a finite quantity
+        big, small = (sa or 0), (sb or 0)
+        return lift(_CMP[op](big, small))
     return E("cmp", op, a, b)
+
+
+def _inf_sign(e):
+    if e.op == "sym" and e.args[0] in ("numpy.inf", "math.inf", "np.inf", "inf"):
+        return 1
+    if e.op == "neg" and _inf_sign(e.args[0]) == 1:
+        return -1
+    return 0
 
 
 def enot(a):
